@@ -11,7 +11,7 @@ def items(tier):
     for p, strat, tags in corpus.entries(tier):
         for L in ([maxL] if tier == "quick" else range(0, maxL + 1)):
             out.append(mk("C11", p, "basic", L, "", strategy=strat))
-        if tier != "quick" or len(out) % 3 == 0:
+        if tier != "quick" or (len(out) % 6 == 0):
             out.append(mk("C11", p, "all", 2 if tier == "quick" else 3, "", strategy=strat))
     return out
 
